@@ -34,6 +34,10 @@ pub struct RunCfg {
     pub tls_lifo: bool,
     pub history: usize,
     pub p_switch_after_mark: u32,
+    #[serde(default)]
+    pub p_stall_after_mark: u32,
+    #[serde(default)]
+    pub p_stall_any: u32,
 }
 
 impl RunCfg {
@@ -72,6 +76,8 @@ impl RunCfg {
             tls_lifo: self.tls_lifo,
             history: self.history,
             p_switch_after_mark: self.p_switch_after_mark,
+            p_stall_after_mark: self.p_stall_after_mark,
+            p_stall_any: self.p_stall_any,
         }
     }
 }
@@ -116,6 +122,8 @@ pub fn swarm_cfg(rng: &mut Rng, weak: bool) -> RunCfg {
         tls_lifo: rng.below(4) != 0,
         history: 4 + rng.below(5) as usize,
         p_switch_after_mark: choose(rng, &[0, 64, 160]),
+        p_stall_after_mark: choose(rng, &[0, 0, 24, 80]),
+        p_stall_any: choose(rng, &[0, 0, 0, 6, 20]),
     }
 }
 
